@@ -128,7 +128,7 @@ StatusNum(s) == CASE s = "200" -> 200 [] s = "204" -> 204 [] s = "500" -> 500 []
 \* is the reported outcome one the server's behaviour and the checker's clock allow?
 Consistent(e, r) ==
   IF e.to
-  THEN ~e.ok /\ e.el > r.timeout * 1000 /\ r.age >= r.timeout
+  THEN ~e.ok /\ e.el >= r.timeout * 1000 /\ r.age >= r.timeout      \* (el is truncated to whole milliseconds)
   ELSE /\ e.el <= r.timeout * 1000
        /\ IF e.ok THEN e.srv \in Statuses /\ Match(StatusNum(e.srv), r.expect)
                   ELSE \/ e.srv \in {"none", "close"}
